@@ -175,32 +175,48 @@ def scan():
                     and isinstance(n.value, ast.Attribute) and isinstance(n.value.value, ast.Name) and n.value.value.id in cands:
                 alias[n.targets[0].id] = (n.value.value.id, n.value.attr)
     mutated, keys = set(), {t: [] for t in cands}
+
+    def resolve(expr, local):
+        """a key given as a local variable stands for what that variable was assigned in the same function"""
+        if isinstance(expr, ast.Name) and expr.id in local:
+            return local[expr.id]
+        return [expr]
+
+    def visit(node, local):
+        if isinstance(node, (ast.FunctionDef, ast.AsyncFunctionDef)):
+            local = {}
+            for n in ast.walk(node):
+                if isinstance(n, ast.Assign) and len(n.targets) == 1 and isinstance(n.targets[0], ast.Name):
+                    local.setdefault(n.targets[0].id, []).append(n.value)
+        n = node
+        if isinstance(n, ast.Subscript) and isinstance(n.value, ast.Name) and n.value.id in cands:
+            keys[n.value.id] += resolve(n.slice, local)
+            if isinstance(n.ctx, (ast.Store, ast.Del)):
+                mutated.add(n.value.id)
+        elif isinstance(n, ast.Call):
+            f = n.func
+            if isinstance(f, ast.Attribute) and isinstance(f.value, ast.Name) and f.value.id in cands:
+                t = f.value.id
+                if f.attr in MUTATORS:
+                    mutated.add(t)
+                for kw in n.keywords:
+                    if kw.arg == 'key':
+                        keys[t] += resolve(kw.value, local)
+                if f.attr in KEYED_CALLS and n.args:
+                    keys[t] += resolve(n.args[0], local)
+            elif isinstance(f, ast.Name) and f.id in alias and n.args:
+                t, attr = alias[f.id]
+                keys[t] += resolve(n.args[0], local)
+                if attr in MUTATORS:
+                    mutated.add(t)
+        elif isinstance(n, ast.Compare) and any(isinstance(o, (ast.In, ast.NotIn)) for o in n.ops):
+            for c in n.comparators:
+                if isinstance(c, ast.Name) and c.id in cands:
+                    keys[c.id] += resolve(n.left, local)
+        for ch in ast.iter_child_nodes(node):
+            visit(ch, local)
     for p, tree in trees.items():
-        for n in ast.walk(tree):
-            if isinstance(n, ast.Subscript) and isinstance(n.value, ast.Name) and n.value.id in cands:
-                keys[n.value.id].append(n.slice)
-                if isinstance(n.ctx, (ast.Store, ast.Del)):
-                    mutated.add(n.value.id)
-            elif isinstance(n, ast.Call):
-                f = n.func
-                if isinstance(f, ast.Attribute) and isinstance(f.value, ast.Name) and f.value.id in cands:
-                    t = f.value.id
-                    if f.attr in MUTATORS:
-                        mutated.add(t)
-                    for kw in n.keywords:
-                        if kw.arg == 'key':
-                            keys[t].append(kw.value)
-                    if f.attr in KEYED_CALLS and n.args:
-                        keys[t].append(n.args[0])
-                elif isinstance(f, ast.Name) and f.id in alias and n.args:
-                    t, attr = alias[f.id]
-                    keys[t].append(n.args[0])
-                    if attr in MUTATORS:
-                        mutated.add(t)
-            elif isinstance(n, ast.Compare) and any(isinstance(o, (ast.In, ast.NotIn)) for o in n.ops):
-                for c in n.comparators:
-                    if isinstance(c, ast.Name) and c.id in cands:
-                        keys[c.id].append(n.left)
+        visit(tree, {})
     tables = []
     for t, mod in sorted(cands.items(), key=lambda kv: (kv[1], kv[0])):
         if t not in mutated and t not in TABLE_NOTES:
